@@ -57,8 +57,9 @@ def every_weight_tested(m, run):
     `exists w: |w - 1| > tol`.  Accepted shapes: early return inside a loop over the weights; any(<non-unit test>); not all(<unit test>)."""
     fi = m.func('convert.nurbs_to_bspline')
     src = params_of(fi.node)[0]
-    cmps = [c for c in ast.walk(fi.node) if isinstance(c, ast.Compare) and len(c.ops) == 1 and any(isinstance(x, ast.Call) and norm(x.func) == 'abs' for x in ast.walk(c.left))
-            and isinstance(c.ops[0], (ast.Gt, ast.GtE, ast.Lt, ast.LtE))]
+    cmps = [c for c in ast.walk(fi.node) if isinstance(c, ast.Compare) and len(c.ops) == 1 and isinstance(c.ops[0], (ast.Gt, ast.GtE, ast.Lt, ast.LtE))
+            and any(isinstance(x, ast.BinOp) and isinstance(x.op, ast.Sub) and any(isinstance(y, ast.Constant) and y.value in (1, 1.0) for y in (x.left, x.right))
+                    for x in ast.walk(c.left))]
     if len(cmps) != 1:
         raise AnalysisError('%s: unit-weight test not found' % fi.key)
     c = cmps[0]
